@@ -484,6 +484,13 @@ func (d *innerDecor) Decor(s decor.Statistics) (string, int) {
 type listenerDecor struct{ *innerDecor }
 
 func (d listenerDecor) OnShutdown() {
+	// a listener may look at its own bar (what it was told is that the bar is
+	// shutting down): the getters must answer
+	if b := d.r.bar(d.bar); b != nil {
+		_ = b.Current()
+		_ = b.Aborted()
+		_ = b.ID()
+	}
 	d.r.mu.Lock()
 	d.r.tr.Shutdowns[[2]int{d.bar, d.di}]++
 	d.r.mu.Unlock()
